@@ -2,6 +2,7 @@ package protocol
 
 import (
 	"fmt"
+	"sync"
 
 	"github.com/pkg/errors"
 
@@ -154,6 +155,8 @@ func (c chainBridge) InsertChain(momentums []*nom.DetailedMomentum) (int, error)
 	}
 
 	// if we are dealing with a side-chain, check if it should replace our chain and rollback for insertion
+	var abandoned []*nom.DetailedMomentum
+	var rollbackTarget types.HashHeight
 	if head.Previous() != ourFrontier.Identifier() {
 		// check if we can roll back for insertion
 		target, err := store.GetMomentumByHeight(head.Height - 1)
@@ -179,6 +182,20 @@ func (c chainBridge) InsertChain(momentums []*nom.DetailedMomentum) (int, error)
 			return 0, errors.Errorf("won't insert side-chain which is not longer")
 		}
 
+		// remember the momentums which are about to be abandoned, to come back to them if the side-chain doesn't verify
+		for height := target.Height + 1; height <= ourFrontier.Height; height += 1 {
+			our, err := store.GetMomentumByHeight(height)
+			if err != nil {
+				return 0, err
+			}
+			detailed, err := store.PrefetchMomentum(our)
+			if err != nil {
+				return 0, err
+			}
+			abandoned = append(abandoned, detailed)
+		}
+		rollbackTarget = target.Identifier()
+
 		err = c.chain.RollbackTo(insert, target.Identifier())
 		if err != nil {
 			return 0, errors.Errorf("unable to rollback to %v. Reason:%v", target.Identifier(), err)
@@ -186,6 +203,25 @@ func (c chainBridge) InsertChain(momentums []*nom.DetailedMomentum) (int, error)
 	}
 
 	// Insert momentum now
+	index, err := c.insertMomentums(insert, momentums)
+	if err != nil {
+		if abandoned != nil {
+			// the side-chain is not fully valid: a node leaves its chain only for a verified, longer one
+			log.Info("side-chain failed verification. Restoring own chain", "rollback-target", rollbackTarget)
+			if restoreErr := c.chain.RollbackTo(insert, rollbackTarget); restoreErr != nil {
+				log.Error("unable to rollback the side-chain", "reason", restoreErr)
+			} else if _, restoreErr := c.insertMomentums(insert, abandoned); restoreErr != nil {
+				log.Error("unable to restore own chain", "reason", restoreErr)
+			}
+		}
+		return index + start, err
+	}
+
+	return 0, nil
+}
+
+// insertMomentums applies & inserts all momentums, in order. Returns the index of the first momentum which failed.
+func (c chainBridge) insertMomentums(insert sync.Locker, momentums []*nom.DetailedMomentum) (int, error) {
 	for index, detailed := range momentums {
 		for _, block := range detailed.AccountBlocks {
 			if block.BlockType == nom.BlockTypeContractSend {
@@ -198,21 +234,21 @@ func (c chainBridge) InsertChain(momentums []*nom.DetailedMomentum) (int, error)
 			transaction, err := c.supervisor.ApplyBlock(block)
 			if err != nil {
 				log.Error("error while applying account-block", "reason", err, "account-block-header", block.Header())
-				return index + start, err
+				return index, err
 			}
 			if err := c.chain.ForceAddAccountBlockTransaction(insert, transaction); err != nil {
 				log.Error("error while inserting account-block in pool", "reason", err, "account-block-header", block.Header())
-				return index + start, err
+				return index, err
 			}
 		}
 
 		transaction, err := c.supervisor.ApplyMomentum(detailed)
 		if err != nil {
-			return index + start, err
+			return index, err
 		}
 		if err := c.chain.AddMomentumTransaction(insert, transaction); err != nil {
 			log.Error("error while inserting momentum", "reason", err, "momentum-identifier", detailed.Momentum.Identifier())
-			return index + start, err
+			return index, err
 		}
 	}
 
